@@ -11,11 +11,13 @@
 (*   SwappedIndex = TRUE  the pinned tree's register_proxy_cap -> AlgoProxyStable violated *)
 (*   DedupeAdd = TRUE     update_caps skipping a (type, url) pair the name already has     *)
 (*                        -> AlgoByName violated by the grant history a, c, a              *)
+(*   IterRemove = TRUE    the seed request's name list walked while names are removed from *)
+(*                        it -> AlgoUpstream violated by two adjacent proxy-only names     *)
 (* and that the candidate repairs (both FALSE) refine the property.        *)
 (***************************************************************************)
 EXTENDS Caps
 
-CONSTANTS FirstMatch, SwappedIndex, DedupeAdd, Depth
+CONSTANTS FirstMatch, SwappedIndex, DedupeAdd, IterRemove, Depth
 VARIABLE md          \* md[r]: the CapsMultiDict of region r as its item sequence <<name, type, url>>
 avars == <<vars, md>>
 Bound == TLCGet("level") <= Depth
@@ -59,7 +61,7 @@ AlgoResolve(q) == LET h == FirstRegion(1, q) IN
 
 (***************************** lock-step actions ***************************)
 AInit == Init /\ md = [r \in Regions |-> <<Item("Seed", "N", SeedUrl(r))>>]
-ASeedReq(r, wp) == SeedReq(r, wp) /\ UNCHANGED md
+ASeedReq(r, w) == SeedReq(r, w) /\ UNCHANGED md
 NameOrder == <<"CapA", "CapB", "GetMesh", "ViewerAsset">>
 ASeedResp(r, i) ==
     /\ SeedResp(r, i)
@@ -71,14 +73,23 @@ ASeedResp(r, i) ==
        IN md' = [md EXCEPT ![r] = MdAddAll(MdUpdate(@, grants), wraps)]
 ARegisterTemp(r, u) == RegisterTemp(r, u) /\ md' = [md EXCEPT ![r] = MdAdd(@, Item("UpTemp", "T", u))]
 (* register_proxy_cap: `if name in self.caps: cap_data = self.caps[name]; if <is proxy-only>: return url` *)
-AlgoProxyUrl(r) == IF Keep(md[r], "ProxyP") = <<>> THEN ProxyUrl(r)
-                   ELSE IF ~SwappedIndex THEN MdGet(md[r], "ProxyP")
-                   ELSE <<"?P" \o ToString(r) \o "#" \o ToString(Len(Keep(md[r], "ProxyP")) + 1)>>   \* a fresh uuid
-ARegisterProxy(r) ==
-    /\ Len(Keep(md[r], "ProxyP")) < 3
-    /\ RegisterProxy(r)
-    /\ IF Keep(md[r], "ProxyP") # <<>> /\ ~SwappedIndex THEN UNCHANGED md
-       ELSE md' = [md EXCEPT ![r] = MdAdd(@, Item("ProxyP", "P", AlgoProxyUrl(r)))]
+AlgoProxyUrl(r, n) == IF Keep(md[r], n) = <<>> THEN ProxyUrl(r, n)
+                      ELSE IF ~SwappedIndex THEN MdGet(md[r], n)
+                      ELSE <<"?P" \o ToString(r) \o n \o "#" \o ToString(Len(Keep(md[r], n)) + 1)>>   \* a fresh uuid
+ARegisterProxy(r, n) ==
+    /\ Len(Keep(md[r], n)) < 3
+    /\ RegisterProxy(r, n)
+    /\ IF Keep(md[r], n) # <<>> /\ ~SwappedIndex THEN UNCHANGED md
+       ELSE md' = [md EXCEPT ![r] = MdAdd(@, Item(n, "P", AlgoProxyUrl(r, n)))]
+(* _handle_request, Seed branch: strip the names the region has a PROXY_ONLY item for *)
+MdProxyNames(r) == {md[r][i].n : i \in {i \in DOMAIN md[r] : md[r][i].t = "P"}}
+RemoveAt(q, i) == SubSeq(q, 1, i - 1) \o SubSeq(q, i + 1, Len(q))
+RECURSIVE WalkRemove(_, _, _)
+WalkRemove(q, i, S) == IF i > Len(q) THEN q                          \* `for name in lst: lst.remove(name)`:
+                       ELSE IF q[i] \in S THEN WalkRemove(RemoveAt(q, i), i + 1, S)   \* the index moves on
+                       ELSE WalkRemove(q, i + 1, S)
+AlgoUpstreamList(r, w) == IF IterRemove THEN WalkRemove(WL(w), 1, MdProxyNames(r))
+                          ELSE SelectSeq(WL(w), LAMBDA n : n \notin MdProxyNames(r))
 (* consuming lookup: popall(name); remove the (type, url) pair; extend *)
 RECURSIVE RemoveFirstItem(_, _)
 RemoveFirstItem(s, u) == IF s = <<>> THEN <<>> ELSE IF Head(s).u = u /\ Head(s).t = "T" THEN Tail(s)
@@ -89,10 +100,10 @@ AResolveTemp(q) ==
          IF h # None4 /\ h[2] = "T"
          THEN md' = [md EXCEPT ![h[3]] = Drop(@, h[1]) \o RemoveFirstItem(Keep(@, h[1]), h[4])]
          ELSE UNCHANGED md
-ANext == \/ \E r \in Regions : \/ \E wp \in BOOLEAN : ASeedReq(r, wp)
-                               \/ \E i \in 1..8 : ASeedResp(r, i)
+ANext == \/ \E r \in Regions : \/ \E w \in 1..7 : ASeedReq(r, w)
+                               \/ \E i \in 1..9 : ASeedResp(r, i)
                                \/ \E u \in TempUrls(r) : ARegisterTemp(r, u)
-                               \/ ARegisterProxy(r)
+                               \/ \E n \in PONameSet : ARegisterProxy(r, n)
          \/ \E q \in TempReqs : AResolveTemp(q)
 ASpec == AInit /\ [][ANext]_avars
 
@@ -102,5 +113,6 @@ AlgoResolves == LET E == EntriesOf(caps) IN
 AlgoTemps == LET E == EntriesOf(caps) IN
              \A q \in TempReqs : (\E e \in BestIn(E, q) : e.t = "T") => AlgoResolve(q) \in AccIn(E, q)
 AlgoByName == \A r \in Regions : \A n \in Names : MdGet(md[r], n) = ByName(r, n)
-AlgoProxyStable == \A r \in Regions : firstP[r] # NoUrl => AlgoProxyUrl(r) = firstP[r]
+AlgoProxyStable == \A r \in Regions : \A n \in PONameSet : firstP[r][n] # NoUrl => AlgoProxyUrl(r, n) = firstP[r][n]
+AlgoUpstream == \A r \in Regions : \A w \in Wants : AlgoUpstreamList(r, w) = UpstreamList(r, w)
 =============================================================================
